@@ -36,7 +36,7 @@ def gen_design(r, ncells=None, nlibs=None):
             last[prefix] = "&" + o
             return ("&" + o, o)
         if r.random() < weird:
-            return (i, r.choice(["%s 50%%", "%s%%pct", "%s[x]", "%s.orig", "\\%s ", "%s/sub", "%s name", "$%s", "%s_o", "o_%s", "n_%s"]) % i)
+            return (i, r.choice(["%s 50%%", "%s%%pct", "%s\tcol", "%s[x]", "%s.orig", "\\%s ", "%s/sub", "%s name", "$%s", "%s_o", "o_%s", "n_%s"]) % i)
         return (i, None)
     nlibs = nlibs or r.choice([1, 2, 2, 3])
     libs = [{"name": namedef("lib", 0.2), "cells": [], "external": (k == 0 and r.random() < 0.2)} for k in range(nlibs)]
@@ -72,7 +72,7 @@ def gen_design(r, ncells=None, nlibs=None):
                 props = []
                 for q in range(r.choice([0, 0, 1, 2])):
                     t = r.choice(["string", "integer", "boolean"])      # C05's quantifier: string/integer/boolean (number types: see DESIGN 7)
-                    v = {"string": r.choice(["8'hA5", "soft lut", "", "x(y)"]), "integer": r.choice([0, 7, -3, 123456789012]),
+                    v = {"string": r.choice(["8'hA5", "soft lut", "", "x(y)", "a\tb"]), "integer": r.choice([0, 7, -3, 123456789012]),
                          "boolean": r.choice([True, False])}[t]
                     props.append((namedef("PROP", 0.3), t, v))
                 cell["insts"].append({"name": namedef("inst", 0.3), "cell": tc["name"][0], "lib": libs[tl]["name"][0], "props": props,
@@ -91,10 +91,14 @@ def gen_design(r, ncells=None, nlibs=None):
                 joined, eps = eps[:k2], eps[k2:]
                 nets.append({"base": None, "index": None, "name": namedef("net", 0.3), "joined": joined})
             # bus nets: bits in random order, possibly with gaps
+            prev_bus = None
             for j in range(r.randint(0, 2)):
                 bid = ident("bus")
                 x = r.random()
                 bname = bid if x < 0.5 else (bid + "$o" if x < 0.8 else "%s[%d]" % (bid, r.randint(0, 3)))   # 2-D style base names
+                if prev_bus is not None and prev_bus[0] != prev_bus[1] and r.random() < 0.6:
+                    bname = prev_bus[0]         # crossing: this bus is NAMED like the identifier of its sibling (whose name differs)
+                prev_bus = (bid, bname)
                 idxs = r.sample(range(0, 9), r.randint(1, 4))
                 for ix in idxs:
                     k2 = min(len(eps), r.choice([0, 1, 2, 3]))
